@@ -19,6 +19,17 @@ CHECKS = {
    note=NOTE_COMMON+" Numerics (smoothing, restriction, prolongation, residual values) are stubs whose contracts are C02-C04; Krylov recurrence residual == true residual (exact arithmetic); SciPy 1.18 call-back/exit structure; for sslsolver runs tol*||b|| >= 1e-30 (below: known finding).",
    technique="symbolic execution of the real solver control flow with z3 Float64 path conditions (decision-prefix exploration), environment stubs for numerics and SciPy Krylov processes, replay through the public API",
    ref="DESIGN.md §6 C01"),
+ 'C14': dict(
+   text="Symbolic proof for all real values: the six Map* classes, VolumeModel and Model's validation are executed on z3 terms with "
+        "exp/ln/log10/10**x as uninterpreted functions constrained by their inverse-pair axioms; z3 decides backward(forward(s)) = s, "
+        "forward(backward(x)) = x, backward > 0, derivative_chain multiplies in place by exactly d sigma/dx (oracle: a symbolic "
+        "differentiator over the solver terms), and that VolumeModel's eta/zeta under every mapping equal those of the plain "
+        "conductivity model (all anisotropy cases, with/without eps_r, mu_r). Validation: Model construction and every property "
+        "setter are explored path by path on symbolic IEEE-754 doubles (exact fpDiv for Resistivity): accepted <=> conductivity / "
+        "mu_r / eps_r positive and finite.",
+   note=NOTE_COMMON+" The transcendental functions are environment stubs constrained only by the listed axioms; floating-point accuracy over twelve decades and the IEEE behaviour of the four log maps are outside.",
+   technique="symbolic execution on z3 Real terms with axiomatised uninterpreted functions (UF+NRA validity) and Float64 path exploration for input validation",
+   ref="DESIGN.md §6 C14"),
  'C05': dict(
    text="Bounded symbolic execution with the grid shape as z3 integers: MGParameters._max_level, _current_sc_dir, _current_lr_dir, "
         "smoothing dispatch, multigrid recursion and _terminate run with numerics stubbed; the explorer forks on the code's "
